@@ -108,7 +108,11 @@ class USBIsochronousStreamOutEndpoint(Elaboratable):
 
         sufficient_space         = (fifo.space_available >= self._max_packet_size)
 
-        okay_to_receive          = targeting_endpoint & sufficient_space
+        # Decide whether a packet fits once, when its first byte arrives. Our free space shrinks as we
+        # store the packet; deciding per byte would truncate any packet that doesn't enter an empty buffer.
+        packet_started           = Signal()
+        packet_fits              = Signal()
+        okay_to_receive          = targeting_endpoint & Mux(packet_started, packet_fits, sufficient_space)
         data_is_lost             = okay_to_receive & rx.next & rx.valid & fifo.full
 
         full_packet              = rx_cnt == self._max_packet_size - 1
@@ -140,6 +144,15 @@ class USBIsochronousStreamOutEndpoint(Elaboratable):
             fifo.read_en         .eq(stream.ready),
             fifo.read_commit     .eq(1)
         ]
+
+        # Latch our "packet fits" decision for the remainder of each packet.
+        with m.If(targeting_endpoint & rx.next & rx.valid & ~packet_started):
+            m.d.usb += [
+                packet_started  .eq(1),
+                packet_fits     .eq(sufficient_space)
+            ]
+        with m.If(fifo.write_commit | fifo.write_discard | tokenizer.new_token):
+            m.d.usb += packet_started.eq(0)
 
         # Count bytes in packet.
         with m.If(fifo.write_en):
